@@ -42,6 +42,8 @@ CHECKS["C10"] = ("exploration", "5.C10", "fault injection at the libc disk bound
   "Seeded search over (F) the failure point and kind of one save, (S) interleavings of the snapshot thread's per-key steps with commands that change, re-type, expire and delete those keys, and (D) prefixes / byte corruptions of valid dumps. Oracles: the dump on disk is byte-identical after a failed save and always loads to exactly the previous or the new dataset; every (value, deadline) pair in a concurrent snapshot was held by that key at one recorded instant; damaged files never cause a panic, a hang or an allocation sized by a length field. Failure points are enumerated densely for the first operations and sampled beyond; interleavings and corruptions are sampled.")
 CHECKS["C11"] = ("exploration", "5.C11", "multi-connection simulation with appendonly on; at checkpoints the AOF bytes on the simulated disk are parsed by an independent RESP reader and replayed into a second, fresh simulated server; canonical dumps of both instances are compared; transient AOF write faults injected at the libc boundary",
   "Seeded search over histories of the write-command catalogue through all execution paths (direct, MULTI/EXEC, EVAL/EVALSHA, immediate and served blocking pops), in one or two databases, with values that are not valid UTF-8, under all three fsync policies and with failing / short AOF writes; oracle: the AOF is a sequence of complete command frames and its replay yields the live dataset (values, presence of deadlines). Histories are sampled.")
+CHECKS["C12"] = ("exploration", "5.C12", "differential twins inside one simulation: two simulated server instances kept in the same state, one executes each command wrapped in a script (call / pcall / KEYS form / EVALSHA), the other the command itself; replies after the RESP-Lua-RESP conversion and canonical dumps compared; literal-script conversion table, sandbox-escape scripts, binary KEYS/ARGV echo, partial-effect scripts, pipelined transfer scripts observed by a second connection",
+  "Seeded search over the command streams of the model-based checks (strings/keys, lists/sets/hashes, sorted sets, streams: the whole argument space incl. edge values, wrong types, arities, binary data) in several databases; the twin oracle needs no model of the commands, only of the reply conversion. Command streams are sampled.")
 NOT_APPLICABLE = []
 def main():
     import json as _j
